@@ -717,7 +717,8 @@ def run_c05(tier: str) -> int:
 def run_c14(tier: str) -> int:
     rep = Report("C14", tier)
     cases = [("writer", n, s, tier) for n, s in c14_skeletons()] + _sym_cases("C14", tier)
-    cases += [("cwriter", n, s, tier) for n, s in c14_skeletons()]
+    cases += [("cwriter", n, s, tier) for n, s in c14_skeletons()
+              if tier == "thorough" or n not in ("nine_leaves", "flat5_float")]
     cases += [("concrete", k, s, f, tier) for k, s, f in c14_concrete_cases()]
     rep.bounds = {
         "symbolic_widths": "write_dbc on skeletons (flat, nested, arrays, arrays of structs, 9 leaves) with every "
